@@ -147,7 +147,15 @@ func c14(c *core.Check) {
 		case strings.HasSuffix(name, "(pathValue).Int32"):
 			ok, fact := int32Guarded(c)
 			c.Decide(ok, "no-input-panic", key, where, fact, fact)
-		case strings.HasSuffix(name, "(FieldMask).print"), strings.HasSuffix(name, "(FieldMask).ForEachChild"):
+		case strings.HasSuffix(name, "(FieldMask).ForEachChild"):
+			fd := prog.FuncDecl(fmRel, "FieldMask.ForEachChild")
+			if fd == nil {
+				c.Unknown("no-input-panic", key, where, "declaration not found")
+				break
+			}
+			ok, fact := c14closedSwitch(c, fd, s.call)
+			c.Decide(ok, "no-input-panic", key, where, fact, fact)
+		case strings.HasSuffix(name, "(FieldMask).print"):
 			c.OK("no-input-panic", key, where, "table: programmer-error panic (mask/descriptor kind mismatch: the kind is set only by the package's own constructors from a closed enumeration); not triggered by path strings or JSON")
 		default:
 			c.Bad("no-input-panic", key, where, "explicit panic reachable from the exported API ("+core.CallPath(parent, s.fn)+") without a verified guard: an input string or JSON document may crash the caller")
@@ -159,6 +167,9 @@ func c14(c *core.Check) {
 	c14noFloatKeys(c)
 	c14runtimePanics(c)
 	c14jsonStrings(c)
+	c14pooledBuffer(c)
+	c14nilStorage(c)
+	c14blackStar(c)
 }
 
 // newPathTokenTotal: the panic in newPathToken's default arm is unreachable: every call passes a constant pathType that
